@@ -551,7 +551,7 @@ def rule_chunk_loops(ctx, rd):
                   'statements between snapshot and parse: ' + ', '.join(norm(b) for b in between), loc=ctx.loc(f, pstmt))
         n += 1
         # REFILL: raw = raw[cur:] + <read of a full chunk>, possibly spelt over several statements; deserializer rebuilt afterwards
-        import copy
+        from ..astcopy import fast_copy
         rb = [s for s in cl['outer'].body if isinstance(s, ast.Assign) and norm(s.targets[0]) == cl['deser']
               and isinstance(s.value, ast.Call) and norm(s.value.func) == 'Deserializer' and len(s.value.args) == 1
               and isinstance(s.value.args[0], ast.Name)]
@@ -587,16 +587,16 @@ def rule_chunk_loops(ctx, rd):
 
             def visit_Name(self, nd):
                 if nd.id == rawv0 and isinstance(nd.ctx, ast.Load) and self.e is not None:
-                    return copy.deepcopy(self.e)
+                    return fast_copy(self.e)
                 return nd
         expr = None
         for w in writes:
             if isinstance(w, ast.Assign):
-                expr = Sub(expr).visit(copy.deepcopy(w.value))
+                expr = Sub(expr).visit(fast_copy(w.value))
             else:
-                left = copy.deepcopy(expr) if expr is not None else ast.Name(id=rawv0, ctx=ast.Load())
+                left = fast_copy(expr) if expr is not None else ast.Name(id=rawv0, ctx=ast.Load())
                 # the size argument of the read may mention the buffer being built: leave it symbolic
-                expr = ast.BinOp(left=left, op=w.op, right=copy.deepcopy(w.value))
+                expr = ast.BinOp(left=left, op=w.op, right=fast_copy(w.value))
         drop = writes[0]
         good = reads = False
         size_ok, size_txt = False, '?'
